@@ -435,6 +435,55 @@ func c05Directed(r *vrand, prefix []int) vsChooser {
 	}
 }
 
+// socket-item-overtakes-polling-event driver (the consumer's second drain entry point):
+//   phase 0: producer 0 runs until its markWorking succeeded (element published, polling event not written);
+//   phase 1: the other writer's stream-close event goes out (writer, send loop) and the consumer handles it:
+//            consumeRecvQueue takes producer 0's element, the flag stays up;
+//   phase 2: producer 0 writes its polling event; the consumer handles it on an EMPTY queue and has to clear the
+//            flag all the same;
+//   phase 3: the remaining producers (their puts need a working wake-up), randomly.
+func c05Overtake(r *vrand, nprod, other int) vsChooser {
+	phase := 0
+	inner := vsRandomChooser(r, 70, 0)
+	has := func(al []int, t int) bool {
+		for _, a := range al {
+			if a == t {
+				return true
+			}
+		}
+		return false
+	}
+	return func(al []int, all int, last int, lastEv *vsEvent) int {
+		cons, send := nprod, nprod+1
+		if phase == 0 {
+			if last == 0 && lastEv != nil && lastEv.Kind == vsKCAS && lastEv.Reg == 0 && lastEv.C == 1 {
+				phase = 1
+			} else if has(al, 0) {
+				return 0
+			} else {
+				phase = 3
+			}
+		}
+		if phase == 1 {
+			for _, t := range []int{other, send, cons} {
+				if has(al, t) {
+					return t
+				}
+			}
+			phase = 2
+		}
+		if phase == 2 {
+			for _, t := range []int{0, cons} {
+				if has(al, t) {
+					return t
+				}
+			}
+			phase = 3
+		}
+		return inner(al, all, last, lastEv)
+	}
+}
+
 func TestVerif_C05(t *testing.T) {
 	seed := uint64(venvInt("VERIF_SEED", 1))
 	n := venvInt("VERIF_N", 300)
@@ -449,6 +498,25 @@ func TestVerif_C05(t *testing.T) {
 		}
 		progs := c05Progs(r, nprod, 3, 15)
 		var c c05Case
+		if id%10 == 7 {
+			// a socket item overtakes a published-but-unwritten polling event, then more puts
+			progs[0][0] = c05OpSend
+			if len(progs[0]) < 2 {
+				progs[0] = append(progs[0], c05OpSend) // a put after the empty-queue polling round
+			}
+			for i := 1; i < len(progs); i++ {
+				for k := range progs[i] {
+					if progs[i][k] == c05OpOther {
+						progs[i][k] = c05OpSend
+					}
+				}
+			}
+			progs = append(progs, []int{c05OpOther})
+			np := len(progs)
+			c = c05Run(id, "directed-socket-item-overtakes-poll", progs, func(int) vsChooser { return c05Overtake(r, np, np-1) })
+			o.emit(c)
+			continue
+		}
 		switch id % 5 {
 		case 0:
 			c = c05Run(id, "uniform", progs, func(int) vsChooser { return vsRandomChooser(r, 0, 3) })
